@@ -377,9 +377,7 @@ theorem C04_binop_min_partial (op : BinOp) (A B : AV.DFA σ α) (pick : List Nat
 
 /-- `C04_binop_min_full` follows from C05's guarantee for all admissible calls. -/
 theorem C04_binop_min_of_C05
-    (hC05 : ∀ (σ α : Type) [DecidableEq σ] [DecidableEq α] (kept : List σ) (syms : List α)
-      (trans : List (σ × List (α × σ))) (init : σ) (finals : List σ) (pick : List Nat → Nat),
-      MinifyCall kept syms trans init finals → MinifyCoreOk kept syms trans init finals pick) :
+    (hC05 : MinifyGuarantee) :
     C04_binop_min_full := by
   intro σ α _ _ op A B pick hA hB pA hs
   refine C04_binop_min_partial op A B pick hA hB pA hs (fun P hP => ?_)
@@ -465,9 +463,7 @@ theorem C04_to_partial_min_partial (d : AV.DFA σ α) (pick : List Nat → Nat)
 
 /-- All three `minify=True` statements follow from C05's guarantee for admissible calls. -/
 theorem C04_min_of_C05
-    (hC05 : ∀ (σ α : Type) [DecidableEq σ] [DecidableEq α] (kept : List σ) (syms : List α)
-      (trans : List (σ × List (α × σ))) (init : σ) (finals : List σ) (pick : List Nat → Nat),
-      MinifyCall kept syms trans init finals → MinifyCoreOk kept syms trans init finals pick) :
+    (hC05 : MinifyGuarantee) :
     C04_binop_min_full ∧ C04_complement_min_full ∧ C04_to_partial_min_full := by
   refine ⟨C04_binop_min_of_C05 hC05, ?_, ?_⟩
   · intro σ α _ _ d trap pick hd pd ht
@@ -552,9 +548,7 @@ theorem C04_closed_to_partial {d : AV.DFA σ α} {Sg : List α} {L : List α →
 /-- Closure of the `minify=True` operations, given C05's guarantee for admissible calls of
 `_minify` (see section 7). -/
 theorem C04_closed_min_partial
-    (hC05 : ∀ (σ α : Type) [DecidableEq σ] [DecidableEq α] (kept : List σ) (syms : List α)
-      (trans : List (σ × List (α × σ))) (init : σ) (finals : List σ) (pick : List Nat → Nat),
-      MinifyCall kept syms trans init finals → MinifyCoreOk kept syms trans init finals pick)
+    (hC05 : MinifyGuarantee)
     {A B : AV.DFA σ α} {Sg : List α} {LA LB : List α → Bool} (hA : Sem A Sg LA) (hB : Sem B Sg LB)
     (pick : List Nat → Nat) :
     (∀ op, ∃ M, A.binopMin op B pick = .ok M ∧ Sem M Sg (fun w => op.fin (LA w) (LB w))) ∧
@@ -572,33 +566,77 @@ theorem C04_closed_min_partial
   · obtain ⟨hv, hp, hsy, hl⟩ := h3 σ α A pick hA.valid hA.pyShape
     exact ⟨hv, hp, fun a => by rw [hsy]; exact hA.syms a, fun w => by rw [hl w, hA.lang w]⟩
 
-/-- **Expression trees.**  For every finite tree over {leaf, ∪, ∩, −, △, complement,
-to_partial, to_complete} whose leaves are valid duplicate-free DFAs over one alphabet `Sg`,
-evaluation with the model of the code (`retain_names=False, minify=False`; `trapOf` returns
-a name outside the given states, as `_get_trap_state_id` does) succeeds, and the result is a
-valid DFA over `Sg` whose verdict on every word is the denoted set expression (complement
-relative to `Sg*`). -/
-theorem C04_expr (trapOf : List Nat → Nat) (hfresh : ∀ l, trapOf l ∉ l) (Sg : List α)
-    (e : DFAExpr α) (hl : e.LeavesOk Sg) :
-    ∃ R, e.eval trapOf = .ok R ∧ Sem R Sg (e.denote Sg) := by
+/-- Closure: renaming by discovery index (for results whose transition keys are their states). -/
+theorem C04_closed_renumber {d : AV.DFA σ α} {Sg : List α} {L : List α → Bool} (h : Sem d Sg L)
+    (hk : akeys d.trans = d.states) : Sem d.renumber Sg L := by
+  obtain ⟨hv, hp, hsy, _, hl⟩ := C04_renumber d h.valid h.pyShape (fun k hk' => by rw [← hk]; exact hk')
+  exact ⟨hv, hp, fun a => by rw [hsy]; exact h.syms a, fun w => by rw [hl w, h.lang w]⟩
+
+/-- Expression trees, general form: nodes may carry `minify=True`; C05's guarantee is only
+needed if some node does. -/
+theorem C04_expr_gen (trapOf : List Nat → Nat) (hfresh : ∀ l, trapOf l ∉ l) (pick : List Nat → Nat)
+    (Sg : List α) (e : DFAExpr α) (hl : e.LeavesOk Sg)
+    (hC05 : e.usesMinify = true → MinifyGuarantee) :
+    ∃ R, e.eval trapOf pick = .ok R ∧ Sem R Sg (e.denote Sg) := by
   induction e with
   | leaf d => exact ⟨d, rfl, hl.1, hl.2.1, hl.2.2, fun _ => rfl⟩
-  | binop op l r ihl ihr =>
-    obtain ⟨A, hA, sA⟩ := ihl hl.1
-    obtain ⟨B, hB, sB⟩ := ihr hl.2
-    obtain ⟨R, hR, sR⟩ := C04_closed_binop_renumbered op sA sB
-    exact ⟨R.renumber, by simp only [DFAExpr.eval, hA, hB, hR], sR⟩
-  | compl e ih =>
-    obtain ⟨A, hA, sA⟩ := ih hl
-    obtain ⟨R, hR, sR⟩ := C04_closed_complement sA (trapOf A.states) (hfresh _)
-    exact ⟨R, by simp only [DFAExpr.eval, hA, hR], sR⟩
-  | toPartial e ih =>
-    obtain ⟨A, hA, sA⟩ := ih hl
-    exact ⟨A.toPartialPlain, by simp only [DFAExpr.eval, hA], C04_closed_to_partial sA⟩
+  | binop op m l r ihl ihr =>
+    obtain ⟨A, hA, sA⟩ := ihl hl.1 (fun h => hC05 (by simp [DFAExpr.usesMinify, h]))
+    obtain ⟨B, hB, sB⟩ := ihr hl.2 (fun h => hC05 (by simp [DFAExpr.usesMinify, h]))
+    cases m with
+    | false =>
+      obtain ⟨R, hR, sR⟩ := C04_closed_binop_renumbered op sA sB
+      exact ⟨R.renumber, by simp only [DFAExpr.eval, hA, hB, hR, DFAExpr.renumberRes], sR⟩
+    | true =>
+      have g := hC05 (by simp [DFAExpr.usesMinify])
+      obtain ⟨M, hM, sM⟩ := (C04_closed_min_partial g sA sB pick).1 op
+      exact ⟨M.renumber, by simp only [DFAExpr.eval, hA, hB, hM, DFAExpr.renumberRes],
+        C04_closed_renumber sM (binopMin_keys hM)⟩
+  | compl m e ih =>
+    obtain ⟨A, hA, sA⟩ := ih hl (fun h => hC05 (by simp [DFAExpr.usesMinify, h]))
+    cases m with
+    | false =>
+      obtain ⟨R, hR, sR⟩ := C04_closed_complement sA (trapOf A.states) (hfresh _)
+      exact ⟨R, by simp only [DFAExpr.eval, hA, hR], sR⟩
+    | true =>
+      have g := hC05 (by simp [DFAExpr.usesMinify])
+      obtain ⟨M, hM, sM⟩ := (C04_closed_min_partial g sA sA pick).2.1 (trapOf A.states) (hfresh _)
+      exact ⟨M.renumber, by simp only [DFAExpr.eval, hA, hM, DFAExpr.renumberRes],
+        C04_closed_renumber sM (complementMinFull_keys hM)⟩
+  | toPartial m e ih =>
+    obtain ⟨A, hA, sA⟩ := ih hl (fun h => hC05 (by simp [DFAExpr.usesMinify, h]))
+    cases m with
+    | false => exact ⟨A.toPartialPlain, by simp only [DFAExpr.eval, hA], C04_closed_to_partial sA⟩
+    | true =>
+      have g := hC05 (by simp [DFAExpr.usesMinify])
+      exact ⟨(A.toPartialMin pick).renumber, by simp only [DFAExpr.eval, hA],
+        C04_closed_renumber (C04_closed_min_partial g sA sA pick).2.2 (toPartialMin_keys A pick)⟩
   | toComplete e ih =>
-    obtain ⟨A, hA, sA⟩ := ih hl
+    obtain ⟨A, hA, sA⟩ := ih hl (fun h => hC05 (by simpa [DFAExpr.usesMinify] using h))
     obtain ⟨C, hC, sC, _⟩ := C04_closed_to_complete sA (trapOf A.states) false (hfresh _)
     exact ⟨C, by simp only [DFAExpr.eval, hA, hC], sC⟩
+
+/-- The full statement for expression trees: all trees, all `minify` flags. -/
+def C04_expr_full : Prop :=
+  ∀ (α : Type) [DecidableEq α] (trapOf : List Nat → Nat), (∀ l, trapOf l ∉ l) →
+    ∀ (pick : List Nat → Nat) (Sg : List α) (e : DFAExpr α), e.LeavesOk Sg →
+      ∃ R, e.eval trapOf pick = .ok R ∧ Sem R Sg (e.denote Sg)
+
+/-- **Expression trees (`minify=False` everywhere).**  For every finite tree over {leaf, ∪,
+∩, −, △, complement, to_partial, to_complete} whose leaves are valid duplicate-free DFAs
+over one alphabet `Sg`, evaluation with the model of the code (`retain_names=False`;
+`trapOf` returns a name outside the given states, as `_get_trap_state_id` does) succeeds,
+and the result is a valid DFA over `Sg` whose verdict on every word is the denoted set
+expression (complement relative to `Sg*`). -/
+theorem C04_expr (trapOf : List Nat → Nat) (hfresh : ∀ l, trapOf l ∉ l) (pick : List Nat → Nat)
+    (Sg : List α) (e : DFAExpr α) (hl : e.LeavesOk Sg) (hm : e.usesMinify = false) :
+    ∃ R, e.eval trapOf pick = .ok R ∧ Sem R Sg (e.denote Sg) :=
+  C04_expr_gen trapOf hfresh pick Sg e hl (fun h => by rw [hm] at h; cases h)
+
+/-- **Expression trees, any `minify` flags** — given C05's guarantee for admissible calls of
+`_minify`. -/
+theorem C04_expr_min_partial (hC05 : MinifyGuarantee) : C04_expr_full :=
+  fun _ _ trapOf hfresh pick Sg e hl => C04_expr_gen trapOf hfresh pick Sg e hl (fun _ => hC05)
 
 /-- `freshNat` is an admissible trap-name oracle. -/
 theorem C04_expr_fresh (l : List Nat) : freshNat l ∉ l := freshNat_not_mem l
@@ -606,7 +644,12 @@ theorem C04_expr_fresh (l : List Nat) : freshNat l ∉ l := freshNat_not_mem l
 /-- `(A − B) ∪ ~(to_partial(A) ∩ to_complete(B))`: five operation nodes. -/
 def exE : DFAExpr Nat :=
   .union (.diff (.leaf exA) (.leaf exB))
-    (.compl (.inter (.toPartial (.leaf exA)) (.toComplete (.leaf exB))))
+    (.compl false (.inter (.toPartial false (.leaf exA)) (.toComplete (.leaf exB))))
+
+/-- The same tree with `minify=True` at three nodes. -/
+def exEm : DFAExpr Nat :=
+  .union (.diff (.leaf exA) (.leaf exB) true)
+    (.compl true (.inter (.toPartial true (.leaf exA)) (.toComplete (.leaf exB)))) false
 
 theorem exA_leafOk : (DFAExpr.leaf exA).LeavesOk [0, 1] :=
   ⟨by rfl, ⟨by decide, by decide, by decide, by decide, by decide⟩, fun _ => Iff.rfl⟩
@@ -614,13 +657,16 @@ theorem exB_leafOk : (DFAExpr.leaf exB).LeavesOk [0, 1] :=
   ⟨by rfl, ⟨by decide, by decide, by decide, by decide, by decide⟩, fun _ => Iff.rfl⟩
 
 example : exE.LeavesOk [0, 1] := ⟨⟨exA_leafOk, exB_leafOk⟩, ⟨exA_leafOk, exB_leafOk⟩⟩
-example : exE.size = 6 := by decide
-example : (match exE.eval freshNat with
+example : exE.size = 6 ∧ exE.usesMinify = false ∧ exEm.usesMinify = true := by decide
+example : (match exEm.eval freshNat (fun _ => 0) with
+           | .ok R => (R.accepts [1], R.accepts [0, 0], R.accepts [1, 0, 1], R.accepts [1, 7])
+           | .error _ => (true, false, false, true)) = (false, true, true, false) := by decide
+example : (match exE.eval freshNat (fun _ => 0) with
            | .ok R => (R.states.length, R.accepts [1], R.accepts [0, 0], R.accepts [1, 0, 1], R.accepts [1, 7])
            | .error _ => (0, true, false, false, true)) = (5, false, true, true, false) := by decide
 example : (exE.denote [0, 1] [1], exE.denote [0, 1] [0, 0], exE.denote [0, 1] [1, 0, 1],
     exE.denote [0, 1] [1, 7]) = (false, true, true, false) := by decide
-example : (match exE.eval freshNat with
+example : (match exE.eval freshNat (fun _ => 0) with
            | .ok R => R.validate
            | .error e => .error e) = .ok () := by rfl
 
